@@ -89,6 +89,8 @@ type l2World struct {
 	histEntriesAtBegin uint32
 	histWritten map[int64]bool
 	noWrap    bool
+	ownAll    bool
+	replicas  []*l2Replica
 	feeBook   []feeEntry // declared fee per tx of the block being executed (C20); nil = fees are zero
 	genesis   *node.L2Genesis
 	pendingHost []node.HostSetUpdate
@@ -103,6 +105,9 @@ type l2World struct {
 func keyAddrOf(label string) string { return string(node.KeyAddr(label)) }
 
 func (w *l2World) own(owners []string) bool {
+	if w.ownAll {
+		return true
+	}
 	for _, o := range owners {
 		if o == w.p.Prop {
 			return true
@@ -818,6 +823,11 @@ func (w *l2World) execBlock(bc blockCtx, txs []l2Pending, crash string) *core.Vi
 	w.n.Commit()
 	if crash == "after-commit" {
 		w.restart(crash)
+	}
+	if len(w.replicas) > 0 {
+		if v := w.runReplicas(bc, raw, host, res); v != nil {
+			return v
+		}
 	}
 	r.SimNS += int64(T.Sub(w.now))
 	w.now = T
